@@ -314,6 +314,28 @@ let type_c01 out =
     | _ -> Printf.fprintf out "BAD-LINE\n"
   done with End_of_file -> ()
 
+(* stmt-model <entry>: the statement family of Parse/StmtModel.v (with recovery) under the entry points ParseDDL / ParseStatement and,
+   through the list loop of Parse/ListLoop.v, ParseDDLs / ParseStatements; UNSUP when a statement outside the family is met *)
+exception Outside
+let stmt_model out entry =
+  let sp0 = (match entry with "ParseDDL" | "ParseDDLs" -> sp_ddl | _ -> sp_stmt) in
+  let sp ts = (match sp0 ts with Some r -> r | None -> Stdlib.raise Outside) in
+  let many = (entry = "ParseDDLs" || entry = "ParseStatements") in
+  try while true do
+    let line = input_line stdin in
+    match String.split_on_char ' ' line with
+    | [hex; "=>"; "LEXERR"] -> Printf.fprintf out "%s => LEXERR\n" hex
+    | [hex; "=>"; toks] ->
+      let ts = List.map parse_tok (List.filter (fun x -> x <> "") (String.split_on_char ';' toks)) in
+      (try
+        let (nodes, errs) = if many then parse_many sp ts else (let (n, e) = parse_one sp ts in ([n], e)) in
+        let b = Buffer.create 256 in
+        List.iteri (fun i n -> if i > 0 then Buffer.add_string b " ; "; dump_tree b (dnode_tree n)) nodes;
+        Printf.fprintf out "%s => %d %s\n" hex (int_of_nat errs) (Buffer.contents b)
+       with Outside -> Printf.fprintf out "%s => UNSUP\n" hex)
+    | _ -> ()
+  done with End_of_file -> ()
+
 (* expr-sim: lines "<toks of x> | <toks of y>": the hypothesis of the C16 theorems on two real token lists *)
 let expr_sim out =
   let toks_of s = List.map parse_tok (List.filter (fun x -> x <> "") (String.split_on_char ';' (String.trim s))) in
@@ -437,6 +459,7 @@ let run (args : string list) : bool =
    | ["bad-model"] -> bad_model out; true
    | ["expr-c01"] -> expr_c01 out; true
    | ["type-model"] -> type_model out; true
+   | ["stmt-model"; entry] -> stmt_model out entry; true
    | ["type-recover"] -> type_recover out; true
    | ["type-c01"] -> type_c01 out; true
    | ["tree-walkmany"] -> tree_walk out 0 0 true; true
